@@ -1,6 +1,6 @@
 """C09 — rich annotations mirror element nesting exactly (annotation stack discipline)."""
 from ..facts import AnchorMissing, callee_def, op_place, op_const, is_bare
-from ..util import (SUBR, TEXTR, RTRAIT, ends, is_callee, field_accesses, site, fn_key,
+from ..util import (storage_roots, SUBR, TEXTR, RTRAIT, ends, is_callee, field_accesses, site, fn_key,
                     consumer_of_ref, callee_method, dominated_by_true_edge, require,
                     closure_bodies_created_in, transitive_closures, edge_is_true, src_field,
                     deep_atoms, has_call, has_field, direct_place)
@@ -412,7 +412,28 @@ def rule_b(ctx):
             if okc:
                 cb, ebb, et = enders[0]
                 uw = cb.calls(lambda cd, t: ends(cd, "PushedStyleInfo::unwind"))
-                ctx.check(len(uw) == 1 and cb.dominates(ebb, uw[0][0]), "C09-B", key + ":end-before-unwind",
+                okb = len(uw) == 1 and cb.dominates(ebb, uw[0][0])
+                if not uw:
+                    # the end call is wrapped in a closure of its own that the arm's reducer receives and calls
+                    # (`pending_inline(children, style, |r| r.end_X())`): the call of that closure must precede the unwind
+                    for (bb2, i2, cb2, ops2, fields2) in closure_bodies_created_in(F, drn):
+                        if cb2 is cb:
+                            continue
+                        for idx, o in enumerate(ops2):
+                            pl = direct_place(drn, o)
+                            sd = drn.single_def(pl["l"]) if pl is not None and not pl["p"] else None
+                            if not (sd and sd[0] == "stmt" and (sd[3].get("rv") or {}).get("agg") == "closure" and sd[3]["rv"].get("def") == cb.id):
+                                continue
+                            inv = []
+                            for cbb, ct in cb2.calls(lambda cd, t: callee_method(t) in ("call_once", "call", "call_mut")):
+                                cpl = direct_place(cb2, ct["args"][0])
+                                fs = [e for e in (cpl or {}).get("p", []) if isinstance(e, dict) and "f" in e]
+                                if cpl is not None and cpl["l"] == 1 and fs and fs[0]["f"] == idx:
+                                    inv.append(cbb)
+                            uw2 = cb2.calls(lambda cd, t: ends(cd, "PushedStyleInfo::unwind"))
+                            if len(inv) == 1 and len(uw2) == 1 and cb2.dominates(inv[0], uw2[0][0]):
+                                okb = True
+                ctx.check(okb, "C09-B", key + ":end-before-unwind",
                           et["span"], fn_key(cb), "end_%s must precede unwinding the pushed style" % x)
     ctx.floor("C09-B", "start_X calls in tree-walk arms", n, 7)
     # converse: every reducer that ends X was created under a start_X
@@ -476,11 +497,17 @@ def consume_events(F, b, tracked_local=None, tracked_upvar=None, depth=0, seen=N
                     if "m" in o and is_tracked(o["m"], locals_):
                         if rv["agg"] == "closure":
                             cb = F.bodies.get(rv["def"])
-                            if cb is None or (cb.id, i) in seen:
+                            memo = F.__dict__.setdefault("_c09_consume_memo", {})
+                            if cb is not None and (cb.id, i) in seen and (cb.id, i) in memo:
+                                # the same closure created at several sites (a helper inlined into several arms): one verdict
+                                okc, why = memo[(cb.id, i)]
+                            elif cb is None or (cb.id, i) in seen:
                                 problems.append((st["span"], "closure body unavailable"))
                                 continue
-                            seen.add((cb.id, i))
-                            okc, why = must_consume(F, cb, upvar=i, depth=depth + 1, seen=seen)
+                            else:
+                                seen.add((cb.id, i))
+                                okc, why = must_consume(F, cb, upvar=i, depth=depth + 1, seen=seen)
+                                memo[(cb.id, i)] = (okc, why)
                             if okc:
                                 events.add(bb)
                             else:
@@ -749,10 +776,28 @@ def rule_f(ctx):
         t = at_calls[0][1]
         a3 = b.atoms(t["args"][3])
         a4 = b.atoms(t["args"][4])
-        ctx.check(has_call(a3, "TextDecorator::decorate_preformat_first") and
-                  not has_call(a3, "TextDecorator::decorate_preformat_cont") and
-                  has_call(a4, "TextDecorator::decorate_preformat_cont") and
-                  not has_call(a4, "TextDecorator::decorate_preformat_first"),
+        ok = (has_call(a3, "TextDecorator::decorate_preformat_first") and
+              not has_call(a3, "TextDecorator::decorate_preformat_cont") and
+              has_call(a4, "TextDecorator::decorate_preformat_cont") and
+              not has_call(a4, "TextDecorator::decorate_preformat_first"))
+        if not ok:
+            # the two vectors may travel together (a tuple, an Option of a tuple) and be taken apart again: follow each
+            # argument field by field to the vectors it can denote, and ask which annotation was pushed onto those
+            def pushed_onto(arg):
+                pl = op_place(arg)
+                roots = storage_roots(b, {"l": pl["l"], "p": ["*"] + list(pl["p"])}) if pl is not None else set()
+                got = set()
+                for which in ("decorate_preformat_first", "decorate_preformat_cont"):
+                    for _bb, pt in b.calls(lambda cd, t: ends(cd, "Vec::<T, A>::push")):
+                        if not has_call(b.atoms(pt["args"][1]), "TextDecorator::" + which):
+                            continue
+                        tp = direct_place(b, pt["args"][0])
+                        if tp is not None and (tp["l"], b.expr({"l": tp["l"], "p": tp["p"]})) in roots:
+                            got.add(which)
+                return got
+            ok = pushed_onto(t["args"][3]) == {"decorate_preformat_first"} and \
+                pushed_onto(t["args"][4]) == {"decorate_preformat_cont"}
+        ctx.check(ok,
                   "C09-F", "add_text:(main=first, wrap=cont)", t["span"], b.id,
                   "main tag must carry the first-line annotation, wrap tag the continuation annotation")
 
